@@ -37,6 +37,9 @@ type Knobs struct {
 	// PoolPoison: released pooled objects (messages, records, questions,
 	// request contexts) are poisoned, quarantined and checked (vsync.Pool).
 	PoolPoison     bool `json:"pool_poison,omitempty"`
+	// PassDoubleRelease: the buffer-pool facade lets a detected double release
+	// through to the real pool (consequences become visible to the other oracles).
+	PassDoubleRelease bool `json:"pass_double_release,omitempty"`
 	PoolQuarantine int  `json:"pool_quarantine,omitempty"`
 }
 
